@@ -407,7 +407,6 @@ func runCase(run *report.Run, w *world.World, c caseSpec, scratch, intPEM, other
 	_ = x509.Certificate{}
 }
 
-
 // tlsScenario wires the validator into a real TLS server exactly as caddytls does
 // (tls.Config.VerifyPeerCertificate -> VerifyClientCertificate(rawCerts, verifiedChains)) and
 // confirms on a handful of real handshakes that the returned error aborts the handshake.
@@ -511,7 +510,6 @@ func tlsScenario(run *report.Run, w *world.World, scratch, intPEM string) {
 	run.Count("real_tls_handshakes", 5)
 }
 
-
 // siblingLocations: two healthy CRLs at locations that differ only slightly (query string, path
 // case, trailing slash, doubled slash); a certificate listed in either must be rejected, whether
 // the locations are configured crl_urls or the certificates' own distribution points.
@@ -580,7 +578,6 @@ func siblingLocations(run *report.Run, w *world.World, scratch, intPEM string) {
 		}
 	}
 }
-
 
 func shardIndex() int {
 	i, _, _ := report.Shard()
